@@ -47,7 +47,10 @@ NormAct(a) == IF a.a = "frag" THEN (IF a.i = a.n THEN [a |-> "feed", c |-> a.c, 
 \* identities are compared case-insensitively: monitors see the configured spelling of a peer's name (MCfg.canon: other
 \* spellings the environment uses |-> configured name), in the messages fed and in the messages dispatched / delivered
 CanonH(h) == IF "canon" \in DOMAIN MCfg /\ h \in DOMAIN MCfg.canon THEN MCfg.canon[h] ELSE h
-CanonAct(a) == IF a.a = "feed" THEN [a EXCEPT !.ms = [i \in 1..Len(@) |-> [@[i] EXCEPT !.oh = CanonH(@)]]] ELSE a
+\* (ohs keeps the name as spelled: the duplicate-detection windows of C17 are per Origin-Host as it appears in the messages)
+WithSpelling(m) == [f \in DOMAIN m \cup {"ohs"} |-> IF f = "ohs" THEN m.oh ELSE IF f = "oh" THEN CanonH(m.oh) ELSE m[f]]
+CanonAct(a) == IF a.a = "feed" THEN [a EXCEPT !.ms = [i \in 1..Len(@) |-> WithSpelling(@[i])]] ELSE a
+Spelled(m) == IF "ohs" \in DOMAIN m THEN m.ohs ELSE m.oh
 CanonOut(out) == [i \in 1..Len(out) |-> IF out[i].ev \in {"dispatch", "app_req"} THEN [out[i] EXCEPT !.m.oh = CanonH(@)] ELSE out[i]]
 Norm(st) == [act |-> CanonAct(NormAct(st.act)), out |-> CanonOut(st.out), snap |-> st.snap]
 =============================================================================
